@@ -164,6 +164,14 @@ def case_pipe(ctx, inp):
         ctx.fail(f"pipeline raised {type(e).__name__}", observed=f"{type(e).__name__}: {e}"[:300])
         ctx.disagree("pipe partitions (dask raised)", model, type(e).__name__)
         return
+    exp_cols = [str(c) for c in expected.columns]
+    for label, obj in [("whole result", whole)] + [(f"partition {i}", p) for i, p in enumerate(got)]:
+        if [str(c) for c in obj.columns] != exp_cols:
+            ctx.fail(f"pipeline {label} has columns {[str(c) for c in obj.columns]}, pandas {exp_cols} (names/order/duplicates)",
+                     observed=[str(c) for c in obj.columns], expected=exp_cols)
+            return
+    if [str(c) for c in r._meta.columns] != exp_cols:
+        ctx.fail("lazy ._meta columns differ from pandas", observed=[str(c) for c in r._meta.columns], expected=exp_cols)
     ctx.eq("pipeline partitions", model, [frame_rows(p) for p in got])
     if r.npartitions != len(lens):
         ctx.fail("blockwise pipeline changed the partition count", observed=r.npartitions, expected=len(lens))
